@@ -1,5 +1,29 @@
+import PdeVerif.Drv.C01
+import PdeVerif.Drv.C02
+import PdeVerif.Drv.C03
+import PdeVerif.Drv.C04
+import PdeVerif.Drv.C05
+import PdeVerif.Drv.C06
+import PdeVerif.Drv.C07
+import PdeVerif.Drv.C08
 import PdeVerif.Drv.C09
+import PdeVerif.Drv.C10
+import PdeVerif.Drv.C11
+import PdeVerif.Drv.C12
+import PdeVerif.Drv.C13
+import PdeVerif.Drv.C14
+import PdeVerif.Drv.C15
+import PdeVerif.Drv.C16
+import PdeVerif.Drv.C17
+import PdeVerif.Drv.C18
+import PdeVerif.Drv.C19
+import PdeVerif.Drv.C20
+/- all request handlers of the model driver (one module per property, so that properties can
+be developed independently) -/
 namespace PdeVerif.Drv
 def allHandlers : List (String × PdeVerif.Handler) :=
-  C09.handlers
+  C01.handlers ++ C02.handlers ++ C03.handlers ++ C04.handlers ++ C05.handlers ++
+  C06.handlers ++ C07.handlers ++ C08.handlers ++ C09.handlers ++ C10.handlers ++
+  C11.handlers ++ C12.handlers ++ C13.handlers ++ C14.handlers ++ C15.handlers ++
+  C16.handlers ++ C17.handlers ++ C18.handlers ++ C19.handlers ++ C20.handlers
 end PdeVerif.Drv
